@@ -126,3 +126,49 @@ Example cfb_chunks :
   | _ => False
   end.
 Proof. vm_compute. reflexivity. Qed.
+
+(* all vectors above as one proposition (an obligation of Properties_C12.v) *)
+Definition sp80038a_vectors_hold : Prop :=
+  (run aes_ecb OpEnc ECB 128 [] pt = good (hex "3ad77bb40d7a3660a89ecaf32466ef97f5d3d58503b9699de785895a96fdbaaf43b1cd7f598ece23881b00e3ed0306887b0c785e27e8ad3f8223207104725dd4")) /\
+  (run aes_ecb OpDec ECB 128 [] (hex "3ad77bb40d7a3660a89ecaf32466ef97f5d3d58503b9699de785895a96fdbaaf43b1cd7f598ece23881b00e3ed0306887b0c785e27e8ad3f8223207104725dd4") = good pt) /\
+  (run aes_ecb OpEnc ECB 192 [] pt = good (hex "bd334f1d6e45f25ff712a214571fa5cc974104846d0ad3ad7734ecb3ecee4eefef7afd2270e2e60adce0ba2face6444e9a4b41ba738d6c72fb16691603c18e0e")) /\
+  (run aes_ecb OpDec ECB 192 [] (hex "bd334f1d6e45f25ff712a214571fa5cc974104846d0ad3ad7734ecb3ecee4eefef7afd2270e2e60adce0ba2face6444e9a4b41ba738d6c72fb16691603c18e0e") = good pt) /\
+  (run aes_ecb OpEnc ECB 256 [] pt = good (hex "f3eed1bdb5d2a03c064b5a7e3db181f8591ccb10d410ed26dc5ba74a31362870b6ed21b99ca6f4f9f153e7b1beafed1d23304b7a39f9f3ff067d8d8f9e24ecc7")) /\
+  (run aes_ecb OpDec ECB 256 [] (hex "f3eed1bdb5d2a03c064b5a7e3db181f8591ccb10d410ed26dc5ba74a31362870b6ed21b99ca6f4f9f153e7b1beafed1d23304b7a39f9f3ff067d8d8f9e24ecc7") = good pt) /\
+  (run aes_cbc OpEnc CBC 128 iv0 pt = good (hex "7649abac8119b246cee98e9b12e9197d5086cb9b507219ee95db113a917678b273bed6b8e3c1743b7116e69e222295163ff1caa1681fac09120eca307586e1a7")) /\
+  (run aes_cbc OpDec CBC 128 iv0 (hex "7649abac8119b246cee98e9b12e9197d5086cb9b507219ee95db113a917678b273bed6b8e3c1743b7116e69e222295163ff1caa1681fac09120eca307586e1a7") = good pt) /\
+  (run aes_cbc OpEnc CBC 192 iv0 pt = good (hex "4f021db243bc633d7178183a9fa071e8b4d9ada9ad7dedf4e5e738763f69145a571b242012fb7ae07fa9baac3df102e008b0e27988598881d920a9e64f5615cd")) /\
+  (run aes_cbc OpDec CBC 192 iv0 (hex "4f021db243bc633d7178183a9fa071e8b4d9ada9ad7dedf4e5e738763f69145a571b242012fb7ae07fa9baac3df102e008b0e27988598881d920a9e64f5615cd") = good pt) /\
+  (run aes_cbc OpEnc CBC 256 iv0 pt = good (hex "f58c4c04d6e5f1ba779eabfb5f7bfbd69cfc4e967edb808d679f777bc6702c7d39f23369a9d9bacfa530e26304231461b2eb05e2c39be9fcda6c19078c6a9d1b")) /\
+  (run aes_cbc OpDec CBC 256 iv0 (hex "f58c4c04d6e5f1ba779eabfb5f7bfbd69cfc4e967edb808d679f777bc6702c7d39f23369a9d9bacfa530e26304231461b2eb05e2c39be9fcda6c19078c6a9d1b") = good pt) /\
+  (run aes_cfb128 OpEnc CFB 128 iv0 pt = good (hex "3b3fd92eb72dad20333449f8e83cfb4ac8a64537a0b3a93fcde3cdad9f1ce58b26751f67a3cbb140b1808cf187a4f4dfc04b05357c5d1c0eeac4c66f9ff7f2e6")) /\
+  (run aes_cfb128 OpDec CFB 128 iv0 (hex "3b3fd92eb72dad20333449f8e83cfb4ac8a64537a0b3a93fcde3cdad9f1ce58b26751f67a3cbb140b1808cf187a4f4dfc04b05357c5d1c0eeac4c66f9ff7f2e6") = good pt) /\
+  (run aes_cfb128 OpEnc CFB 192 iv0 pt = good (hex "cdc80d6fddf18cab34c25909c99a417467ce7f7f81173621961a2b70171d3d7a2e1e8a1dd59b88b1c8e60fed1efac4c9c05f9f9ca9834fa042ae8fba584b09ff")) /\
+  (run aes_cfb128 OpDec CFB 192 iv0 (hex "cdc80d6fddf18cab34c25909c99a417467ce7f7f81173621961a2b70171d3d7a2e1e8a1dd59b88b1c8e60fed1efac4c9c05f9f9ca9834fa042ae8fba584b09ff") = good pt) /\
+  (run aes_cfb128 OpEnc CFB 256 iv0 pt = good (hex "dc7e84bfda79164b7ecd8486985d386039ffed143b28b1c832113c6331e5407bdf10132415e54b92a13ed0a8267ae2f975a385741ab9cef82031623d55b1e471")) /\
+  (run aes_cfb128 OpDec CFB 256 iv0 (hex "dc7e84bfda79164b7ecd8486985d386039ffed143b28b1c832113c6331e5407bdf10132415e54b92a13ed0a8267ae2f975a385741ab9cef82031623d55b1e471") = good pt) /\
+  (run aes_ofb128 OpEnc OFB 128 iv0 pt = good (hex "3b3fd92eb72dad20333449f8e83cfb4a7789508d16918f03f53c52dac54ed8259740051e9c5fecf64344f7a82260edcc304c6528f659c77866a510d9c1d6ae5e")) /\
+  (run aes_ofb128 OpDec OFB 128 iv0 (hex "3b3fd92eb72dad20333449f8e83cfb4a7789508d16918f03f53c52dac54ed8259740051e9c5fecf64344f7a82260edcc304c6528f659c77866a510d9c1d6ae5e") = good pt) /\
+  (run aes_ofb128 OpEnc OFB 192 iv0 pt = good (hex "cdc80d6fddf18cab34c25909c99a4174fcc28b8d4c63837c09e81700c11004018d9a9aeac0f6596f559c6d4daf59a5f26d9f200857ca6c3e9cac524bd9acc92a")) /\
+  (run aes_ofb128 OpDec OFB 192 iv0 (hex "cdc80d6fddf18cab34c25909c99a4174fcc28b8d4c63837c09e81700c11004018d9a9aeac0f6596f559c6d4daf59a5f26d9f200857ca6c3e9cac524bd9acc92a") = good pt) /\
+  (run aes_ofb128 OpEnc OFB 256 iv0 pt = good (hex "dc7e84bfda79164b7ecd8486985d38604febdc6740d20b3ac88f6ad82a4fb08d71ab47a086e86eedf39d1c5bba97c4080126141d67f37be8538f5a8be740e484")) /\
+  (run aes_ofb128 OpDec OFB 256 iv0 (hex "dc7e84bfda79164b7ecd8486985d38604febdc6740d20b3ac88f6ad82a4fb08d71ab47a086e86eedf39d1c5bba97c4080126141d67f37be8538f5a8be740e484") = good pt) /\
+  (run aes_ctr OpEnc CTR 128 (hex "eff1f2f3f4f5f6f7f8f9fafbfcfdfeff") (blk_j 0) = good (hex "874d6191b620e3261bef6864990db6ce")) /\
+  (run aes_ctr OpDec CTR 128 (hex "eff1f2f3f4f5f6f7f8f9fafbfcfdff00") (hex "9806f66b7970fdff8617187bb9fffdff") = good (blk_j 1)) /\
+  (run aes_ctr OpEnc CTR 128 (hex "eff1f2f3f4f5f6f7f8f9fafbfcfdff01") (blk_j 2) = good (hex "5ae4df3edbd5d35e5b4f09020db03eab")) /\
+  (run aes_ctr OpDec CTR 128 (hex "eff1f2f3f4f5f6f7f8f9fafbfcfdff02") (hex "1e031dda2fbe03d1792170a0f3009cee") = good (blk_j 3)) /\
+  (run aes_ctr OpEnc CTR 192 (hex "eff1f2f3f4f5f6f7f8f9fafbfcfdfeff") (blk_j 0) = good (hex "1abc932417521ca24f2b0459fe7e6e0b")) /\
+  (run aes_ctr OpDec CTR 192 (hex "eff1f2f3f4f5f6f7f8f9fafbfcfdff00") (hex "090339ec0aa6faefd5ccc2c6f4ce8e94") = good (blk_j 1)) /\
+  (run aes_ctr OpEnc CTR 192 (hex "eff1f2f3f4f5f6f7f8f9fafbfcfdff01") (blk_j 2) = good (hex "1e36b26bd1ebc670d1bd1d665620abf7")) /\
+  (run aes_ctr OpDec CTR 192 (hex "eff1f2f3f4f5f6f7f8f9fafbfcfdff02") (hex "4f78a7f6d29809585a97daec58c6b050") = good (blk_j 3)) /\
+  (run aes_ctr OpEnc CTR 256 (hex "eff1f2f3f4f5f6f7f8f9fafbfcfdfeff") (blk_j 0) = good (hex "601ec313775789a5b7a7f504bbf3d228")) /\
+  (run aes_ctr OpDec CTR 256 (hex "eff1f2f3f4f5f6f7f8f9fafbfcfdff00") (hex "f443e3ca4d62b59aca84e990cacaf5c5") = good (blk_j 1)) /\
+  (run aes_ctr OpEnc CTR 256 (hex "eff1f2f3f4f5f6f7f8f9fafbfcfdff01") (blk_j 2) = good (hex "2b0930daa23de94ce87017ba2d84988d")) /\
+  (run aes_ctr OpDec CTR 256 (hex "eff1f2f3f4f5f6f7f8f9fafbfcfdff02") (hex "dfc9c58db67aada613c2dd08457941a6") = good (blk_j 3)) /\
+  (incr_aes [two64 - 1; 5] = [0; 6] /\ incr_aes [two64 - 2; 5] = [two64 - 1; 5]
+  /\ incr_aes [two64 - 1; two64 - 1] = [0; 0] /\ incr_des [two64 - 1] = [0]) /\
+  (run aes_ecb OpEnc ECB 128 [] (firstn 17 pt) = (E_INVALID, None)) /\
+  (run aes_cbc OpEnc CBC 128 iv0 (firstn 15 pt) = (E_INVALID, None)) /\
+  (fst (aes_set_key true true OpEnc ECB 129 k128) = E_KEYSIZE).
+Lemma sp80038a_vectors_ok : sp80038a_vectors_hold.
+Proof. exact (conj F_1_1_enc (conj F_1_1_dec (conj F_1_3_enc (conj F_1_3_dec (conj F_1_5_enc (conj F_1_5_dec (conj F_2_1_enc (conj F_2_1_dec (conj F_2_3_enc (conj F_2_3_dec (conj F_2_5_enc (conj F_2_5_dec (conj F_3_13_enc (conj F_3_13_dec (conj F_3_15_enc (conj F_3_15_dec (conj F_3_17_enc (conj F_3_17_dec (conj F_4_1_enc (conj F_4_1_dec (conj F_4_3_enc (conj F_4_3_dec (conj F_4_5_enc (conj F_4_5_dec (conj F_5_128_b1 (conj F_5_128_b2 (conj F_5_128_b3 (conj F_5_128_b4 (conj F_5_192_b1 (conj F_5_192_b2 (conj F_5_192_b3 (conj F_5_192_b4 (conj F_5_256_b1 (conj F_5_256_b2 (conj F_5_256_b3 (conj F_5_256_b4 (conj ctr_carry (conj ecb_reject (conj cbc_reject keysize_reject))))))))))))))))))))))))))))))))))))))). Qed.
